@@ -430,13 +430,19 @@ def rule_lastindex_sync(ctx, rep, rid: str) -> None:
         c = calls[0]
         key = f"{m.qual}:sync"
         copy_in = _copy_in_sources(ctx, js, m, c.lineno)
-        after = [s_ for s_ in m.own_nodes() if isinstance(s_, ast.Assign) and s_.lineno > c.lineno and norm(s_.targets[0]) == "self.lastIndex" and norm(s_.value) == "self._internal.lastIndex"]
+        after = [(s_, m) for s_ in m.own_nodes() if isinstance(s_, ast.Assign) and s_.lineno > c.lineno and norm(s_.targets[0]) == "self.lastIndex" and norm(s_.value) == "self._internal.lastIndex"]
+        # ... or in a helper method of the class called after the matcher
+        for n_ in m.own_nodes():
+            if isinstance(n_, ast.Call) and isinstance(n_.func, ast.Attribute) and norm(n_.func.value) == "self" and n_.lineno > c.lineno:
+                h_ = js.methods.get(n_.func.attr)
+                if h_ is not None and h_ is not m:
+                    after += [(s_, h_) for s_ in h_.own_nodes() if isinstance(s_, ast.Assign) and norm(s_.targets[0]) == "self.lastIndex" and norm(s_.value) == "self._internal.lastIndex"]
         if not copy_in or not after:
             rep.bad(rid, key, f"{m.qual} runs the matcher without {'copying lastIndex in' if not copy_in else 'copying lastIndex back'}: the script-visible lastIndex and the engine's drift apart", m.loc)
             continue
         def flaggy(gs):
             return any(("global" in norm(t) or "sticky" in norm(t)) for t, _ in gs)
-        back_guarded = all(flaggy(guards_of(a, m.node)) for a in after)
+        back_guarded = all(flaggy(guards_of(a, holder.node)) for a, holder in after)
         problem = None
         for n, h, srcs in copy_in:
             for src, gs in srcs:
@@ -450,6 +456,30 @@ def rule_lastindex_sync(ctx, rep, rid: str) -> None:
             rep.bad(rid, key, f"{m.qual}: {h.qual} {why}", f"{h.module.rel}:{n.lineno}")
         else:
             rep.ok(rid, key, {"copy_in": [f"{h.qual}:{norm(n)[:60]}" for n, h, _ in copy_in], "write_back_flag_guarded": back_guarded})
+    # what the engine receives is a position: the script-stored value goes through the integer conversion
+    getter = None
+    for n in js.node.body:
+        if isinstance(n, ast.FunctionDef) and n.name == "lastIndex" and any(norm(d) == "property" for d in n.decorator_list):
+            getter = n
+    key = "JSRegExp.lastIndex:engine-receives-a-position"
+    raw_reads = []
+    for m in js.methods.values():
+        for n in m.own_nodes():
+            if isinstance(n, ast.Assign) and norm(n.targets[0]) == "self._internal.lastIndex" and not (isinstance(m.node, ast.FunctionDef) and any("setter" in norm(d) for d in m.node.decorator_list)):
+                v = n.value
+                if norm(v) == "self.lastIndex" and getter is not None:
+                    rets = [r.value for r in ast.walk(getter) if isinstance(r, ast.Return) and r.value is not None]
+                    for r in rets:
+                        txt = norm(r)
+                        if not (("to_integer(" in txt or "to_length(" in txt or "_to_length(" in txt) and ("max(0" in txt or "to_length(" in txt)):
+                            raw_reads.append((m, n, f"the lastIndex getter returns {short(r, 50)}"))
+                elif "get('lastIndex')" in norm(v) and "to_integer(" not in norm(v):
+                    raw_reads.append((m, n, f"{short(v, 50)}"))
+    if raw_reads:
+        m_, n_, why = raw_reads[0]
+        rep.bad(rid, key, f"{m_.qual} hands the matcher the script-stored lastIndex without the ToLength conversion ({why}): a fraction, string or object stored by the script raises a host TypeError in the matcher, a negative number indexes from the end", f"{m_.module.rel}:{n_.lineno}")
+    else:
+        rep.ok(rid, key)
     # setter
     setter = None
     for n in js.node.body:
